@@ -290,3 +290,35 @@ pub fn workloads() -> Vec<(&'static str, Vec<Step>)> {
         ("W7_deletes_then_gc", vec![Add(1), Add(2), Add(3), Commit, DelId(1), Commit, DelId(2), Commit, Gc, Add(4), Commit]),
     ]
 }
+
+/// The C10 oracle at quiescence: the directory holds exactly the files of the committed segments plus
+/// meta.json and .managed.json, and the persisted managed list equals the managed files that exist.
+pub fn directory_exact(sim: &SimDirectory, suffix: &str, when: &str) -> Result<(), (String, String)> {
+    let idx = Index::open(sim.clone()).map_err(|e| ("reopen_fails".to_string(), format!("{e:?}")))?;
+    let files: BTreeSet<String> = sim.file_names().into_iter().collect();
+    let mut wantf: BTreeSet<String> = ["meta.json".to_string(), ".managed.json".to_string()].into_iter().collect();
+    let mut missing = vec![];
+    for m in idx.searchable_segment_metas().map_err(|e| ("reopen_fails".to_string(), format!("{e:?}")))? {
+        for f in m.list_files() {
+            let f = f.to_string_lossy().to_string();
+            if files.contains(&f) {
+                wantf.insert(f);
+            } else if !f.ends_with(".store.temp") && !f.ends_with(".del") {
+                missing.push(f);
+            }
+        }
+    }
+    if !missing.is_empty() {
+        return Err((format!("needed_file_missing{suffix}"), format!("{when} the committed segments lack {missing:?}")));
+    }
+    let extra: Vec<&String> = files.difference(&wantf).collect();
+    if !extra.is_empty() {
+        return Err((format!("orphan_files{suffix}"), format!("{when} these files remain although nothing references them: {extra:?}")));
+    }
+    let managed: BTreeSet<String> = idx.directory().list_managed_files().into_iter().map(|p| p.to_string_lossy().to_string()).collect();
+    let want_managed: BTreeSet<String> = wantf.iter().filter(|f| !f.starts_with('.')).cloned().collect();
+    if managed != want_managed {
+        return Err((format!("managed_list_differs{suffix}"), format!("{when} the managed list is {managed:?} but the files that exist are {want_managed:?}")));
+    }
+    Ok(())
+}
